@@ -18,9 +18,15 @@ def check(prog, rep):
     Z.check_unique_zones(prog, rep, fs, entry)
     Z.check_index_space(prog, rep, fs, entry)
     Z.check_nan_results(prog, rep, fs, entry)
+    Z.check_flatten_order(prog, rep, fs, entry)
+    Z.check_positional_id_use(prog, rep, fs, entry)
     Z.check_strides(prog, rep, m, 'stats')
     Z.check_default_stats(prog, rep, m, 'stats')
     check_scatter(prog, rep, m)
+    # the statement is backend-neutral: the dask tables of zonal.stats must realise the same statistics
+    Z.check_dask_tables(prog, rep, m, 'stats[dask]')
+    Z.check_derived_stats(prog, rep, m, fs, 'stats[dask]')
+    Z.check_global_ids(prog, rep, m, 'stats[dask]')
     rep.floor('Z1', 1)
     rep.floor('Z2', 1)
     rep.floor('Z3', 1)
